@@ -15,11 +15,11 @@ NEEDS = ["harness", "cli"]
 EXHAUSTIVE = {"quick": True, "thorough": True}
 RULE = ("npy files (1-4 axes, 136-700 bytes, dtypes f8/f4/i4/u2/i8, versions 1-3): every truncation offset 0..len-1 and every extension 1..16 (random, zero, another npy file or its first bytes, and damaged Fortran-order files, "
         "and whitespace-only bytes), declared shapes that disagree with the number of values incl. products that agree only modulo 2^64, at L for all files and at C (view, fold, stat) for a subset; text files: every single token removal, duplication/insertion "
-        "(on the value line and on extra lines), value lines wrapped over several lines with a line / token missing or repeated, and shape edits that change the product; each damaged input must be REJECTED: Err at L; exit != 0, "
+        "(on the value line and on extra lines), value lines wrapped over several lines with a line / token missing or repeated, and shape edits that change the product; the damaged text files also one after the other through the library in one process with the intact file in between; each damaged input must be REJECTED: Err at L; exit != 0, "
         "empty stdout, no panic at C (a quarter of the text cases again with stderr -> /dev/full: still exit != 0). Non-trivial: every damaged input; distinct = digest(bytes).")
 ASSUMPTIONS = ["a text shape edit that keeps the product (e.g. 2/6 -> 3/4) is a different valid file and is not generated",
                "truncating a text file inside trailing whitespace/newline yields the same spectrum and is not a damage case"]
-FLOORS = {"quick": {"evaluations": 15000, "distinct_nontrivial": 12000, "counts": {"L_truncations": 8000, "L_extensions": 600, "C_damaged_runs": 1500, "text_edits": 1500, "C_damaged_runs_stderr_full": 300, "text_wrapped_controls": 50}},
+FLOORS = {"quick": {"evaluations": 15000, "distinct_nontrivial": 12000, "counts": {"L_truncations": 8000, "L_extensions": 600, "C_damaged_runs": 1500, "text_edits": 1500, "C_damaged_runs_stderr_full": 300, "text_wrapped_controls": 50, "large_damaged_files": 90, "L_text_sequence_reads": 1500}},
           "thorough": {"evaluations": 250000, "distinct_nontrivial": 200000, "counts": {"L_truncations": 150000, "L_extensions": 9000, "C_damaged_runs": 30000, "text_edits": 25000}}}
 NSHARD = 32
 SUBS = [["view"], ["fold"], ["stat", "-s", "sum"]]
@@ -132,11 +132,24 @@ def check_npy_extras(S, p):
             continue
         hdr = "{'descr': '%s', 'fortran_order': False, 'shape': (%s,), }" % (descr, ", ".join(map(str, sh)))
         damaged.append(("declared shape %r for %d values" % (sh, nvals), npyfmt.build(hdr, payload, version)))
+    if p["i"] % 4 == 3:
+        # a LARGE file (2^15 .. 2^17 values, counts divisible by 2..16) cut short or followed by further bytes: a decoder that works on the
+        # payload in blocks must still notice what is missing or left over
+        nbig = rng.choice([32768, 65536, 131072, 65520, 98304])
+        bshape = [nbig] if rng.random() < 0.5 else [2, nbig // 2]
+        bdescr = rng.choice(["<f8", "<f4", "<i4", ">u2"])
+        bdata = GS.npy_bytes(bshape, [float((k_ * 31) % 199) for k_ in range(nbig)], bdescr, version=rng.choice([(1, 0), (2, 0)]))
+        isz = int(bdescr[2:])
+        for ext in (1, isz, 2 * isz, 8, 16, 64, nbig // 16 * isz):
+            damaged.append(("large file (%d values, %s) plus %d bytes (extension)" % (nbig, bdescr, ext), bdata + bytes(rng.randrange(256) for _ in range(ext))))
+        for cut in (isz, 1, 8 * isz, nbig // 8 * isz, nbig // 16 * isz + 3):
+            damaged.append(("large file (%d values, %s) cut short by %d bytes" % (nbig, bdescr, cut), bdata[:-cut]))
+        S.count("large_damaged_files", 12)
     reqs = [{"op": "read_file", "path": E.tmpfile(d, ".npy")} for _, d in damaged] + [{"op": "read_npy", "data": d.hex()} for _, d in damaged]
     res = harness.run_all(reqs)
     for k, ((desc, d), r) in enumerate(zip(damaged + damaged, res)):
         S.count("L_extensions" if "extension" in desc else "L_shape_edits")
-        wit = {"level": "L", "file_hex": d.hex(), "damage_desc": desc, "via": "read_file" if k < len(damaged) else "read_npy"}
+        wit = {"level": "L", "file_hex": d.hex() if len(d) < 100000 else None, "damage_desc": desc, "via": "read_file" if k < len(damaged) else "read_npy"}
         if "panic" in r or r.get("died"):
             S.viol("C16:panic:%s" % panic_sig(str(r.get("panic", ""))), "[L npy %s %r: %s] panicked: %s" % (descr, shape, desc, str(r)[:200]), wit)
         elif "data" in r:
@@ -193,6 +206,7 @@ def text_edits(rng, shape, toks):
         yield "wrapped over %d lines, one token added to line %d" % (len(rows), k_), text_of(rows[:k_] + [rows[k_] + [toks[0]]] + rows[k_ + 1:])
     yield "no values", head.encode()
     yield "half the values", (head + " ".join(toks[:n // 2]) + "\n").encode()
+    yield "the other half of the values", (head + " ".join(toks[n // 2:]) + "\n").encode()
     # shape edits that change the product
     for j in range(len(shape)):
         for delta in (1, -1, 2):
@@ -246,6 +260,28 @@ def check_text(S, p):
             S.case(key=digest(d), nontrivial=True)
             if fi == 0 and p["i"] == 1 and k == 2:
                 S.sample({"level": "C", "damage": desc, "input": d.decode()[:200], "argv": r.argv, "rc": r.rc, "stderr": r.err.decode()[:200]})
+        # the same damaged files through the library, ONE AFTER THE OTHER IN ONE PROCESS, with the intact file in between: a rejected
+        # file must leave nothing behind that makes the next one look complete (or the intact one look damaged)
+        edits = list(text_edits(rng_for(seed, "c16", p["name"], "text", fi), shape, toks))
+        seq = []
+        for k, (desc, d) in enumerate(edits):
+            seq.append((desc, d, False))
+            if k % 4 == 1:
+                seq.append(("intact", good, True))
+        lres = harness.run_all([{"op": "read_file", "path": E.tmpfile(d, ".sfs")} for _, d, _ in seq])
+        want_vals = [float(t) for t in toks]
+        for (desc, d, ok_expected), r in zip(seq, lres):
+            S.count("L_text_sequence_reads")
+            wit = {"level": "L", "damage_desc": desc, "file_text": d.decode("latin1")[:2000], "sequence": [x[0] for x in seq][:60]}
+            if "panic" in r or r.get("died"):
+                S.viol("C16:panic:%s" % panic_sig(str(r.get("panic", ""))), "[L text shape %r: %s, read in sequence] panicked: %s" % (shape, desc, str(r)[:200]), wit)
+            elif ok_expected:
+                from ..common import h2f as _h2f
+                if "data" not in r or r["shape"] != shape or [_h2f(x) for x in r["data"]] != want_vals:
+                    S.viol("C16:valid-rejected:sequence", "[L text shape %r] the intact file, read after a rejected one in the same process: %s" % (shape, str(r)[:200]), wit)
+            elif "data" in r:
+                S.viol("C16:accepted:text-sequence", "[L text shape %r: %s, read after other rejected files in the same process] was read as shape %r with %d values" % (
+                    shape, desc, r["shape"], len(r["data"])), wit)
 
 
 def shard(S, p):
